@@ -77,6 +77,10 @@ DISPLAY = "1.2.840.10008.5.1.1.40"
 MPPS = "1.2.840.10008.3.1.2.3.3"
 STGCMT = "1.2.840.10008.1.20.1"
 FILMSESSION = "1.2.840.10008.5.1.1.1"
+# known NON-storage SOP classes the acceptor does not support (still negotiated normally, i.e. rejected, when
+# _config.UNRESTRICTED_STORAGE_SERVICE accepts every storage-like / private / unknown abstract syntax)
+UNSUPPORTED_NONSTORAGE = ["1.2.840.10008.5.1.4.1.2.2.1", "1.2.840.10008.5.1.4.1.2.2.2",
+                          "1.2.840.10008.5.1.4.1.2.2.3"]
 UNSUPPORTED_ABS = [MR, "1.2.840.10008.5.1.4.1.1.128", "1.2.826.0.1.3680043.9.3811.19.1", "1.2.840.10008.5.1.4.31"]
 
 # request type -> SOP class the acceptor supports for it
@@ -96,7 +100,8 @@ def REQUIRE(tier):
     req = {"acc_nonaccepted_evals": 300 if q else 5000, "acc_controls_ok": 50 if q else 1200,
            "acc_mismatch_evals": 40 if q else 1200, "acc_split_cmd_evals": 30 if q else 100,
            "req_nonaccepted_evals": 40 if q else 800, "req_controls_ok": 8 if q else 120,
-           "race_associate_cases": 10 if q else 250, "race_yield_hits": 10 if q else 250}
+           "race_associate_cases": 10 if q else 250, "race_yield_hits": 10 if q else 250,
+           "acc_unrestricted_nonaccepted_evals": 35 if q else 450}
     for c in NONACC:
         req["acc_cls_" + c] = 10 if q else (11 if c == "zero" else 1000)
     for rt in RTYPES:
@@ -325,6 +330,17 @@ def gen_cases(tier, seed):
     # processing of the AC (N-EVENT-REPORT requests are served in a thread of their own, straight from the provider)
     for i in range(12 if tier == "quick" else 300):
         cases.append({"dir": "race-associate", "i": i, "seed": seed, "evals": []})
+    # the same acceptor oracle with _config.UNRESTRICTED_STORAGE_SERVICE on: storage-like / private / unknown abstract syntaxes are
+    # all accepted, known non-storage classes are still negotiated (and rejected) as usual
+    unr = []
+    for _ in range(1 if tier == "quick" else 12):
+        for rt in RTYPES:
+            for cls in ("rejected-abs", "rejected-ts", "never-proposed", "accepted", "rejected-abs"):
+                ev = _acc_eval(rt, rng.choice(_odd_pool()), cls, "same", rng.getrandbits(32))
+                ev["unr"] = True
+                unr.append(ev)
+    rng.shuffle(unr)
+    cases += [{"dir": "acceptor", "unrestricted": True, "evals": unr[i:i + 11]} for i in range(0, len(unr), 11)]
     return cases
 
 
@@ -335,6 +351,8 @@ def acceptor_layout(ev):
     rng = rng_for(ev["lseed"], PID, "layout")
     rt, tid, cls = ev["rt"], ev["id"], ev["cls"]
     own = SOP[rt]
+    unr = bool(ev.get("unr"))
+    unsupported = UNSUPPORTED_NONSTORAGE if unr else UNSUPPORTED_ABS
     pool = [x for x in _odd_pool() if x != tid]
     rng.shuffle(pool)
     pcs = []
@@ -349,16 +367,24 @@ def acceptor_layout(ev):
         at_target = {"id": tid, "abs": other, "ts": [IMPL], "want": 0}
         services.remove(other)
     elif cls == "rejected-abs":
-        at_target = {"id": tid, "abs": rng.choice(UNSUPPORTED_ABS), "ts": [IMPL], "want": 3}
+        at_target = {"id": tid, "abs": rng.choice(unsupported), "ts": [IMPL], "want": 3}
+    elif cls == "rejected-ts" and unr and own == CT:
+        # a storage class cannot be rejected for its transfer syntaxes in unrestricted mode
+        at_target = {"id": tid, "abs": rng.choice(unsupported), "ts": [rng.choice([JPEG, J2K])], "want": 3}
     elif cls == "rejected-ts":
         # the request's own SOP class, proposed a second time with transfer syntaxes the acceptor does not support
         at_target = {"id": tid, "abs": own, "ts": rng.choice([[JPEG], [J2K], [JPEG, J2K]]), "want": 4}
     for a in services:
         pcs.append({"id": pool.pop(), "abs": a, "ts": rng.choice([[IMPL], [IMPL, JPEG], [J2K, IMPL]]), "want": 0})
     for _ in range(rng.randint(1, 3)):
-        pcs.append({"id": pool.pop(), "abs": rng.choice(UNSUPPORTED_ABS), "ts": [IMPL], "want": 3})
+        pcs.append({"id": pool.pop(), "abs": rng.choice(unsupported), "ts": [IMPL], "want": 3})
     for _ in range(rng.randint(1, 3)):
-        pcs.append({"id": pool.pop(), "abs": rng.choice(SERVICE_ABS), "ts": [rng.choice([JPEG, J2K])], "want": 4})
+        a = rng.choice(SERVICE_ABS)
+        pcs.append({"id": pool.pop(), "abs": a, "ts": [rng.choice([JPEG, J2K])], "want": 0 if (unr and a == CT) else 4})
+    if unr:
+        # storage-like contexts nobody supports: accepted with the first proposed transfer syntax
+        for a in (MR, "1.2.826.0.1.3680043.9.3811.19.1"):
+            pcs.append({"id": pool.pop(), "abs": a, "ts": [rng.choice([IMPL, JPEG])], "want": 0})
     if at_target:
         pcs.append(at_target)
     rng.shuffle(pcs)
@@ -523,7 +549,11 @@ def acceptor_eval(ev, port, counters):
         inconc = inconc or "association threads still alive after the watchdog"
     reaction = "abort" if end == "ABORT" else "closed" if end == "EOF" else "none" if end is None else str(end)
 
-    dkey = "acceptor|%s|%d|%s|%s" % (rt, tid, cls, mode)
+    dkey = "acceptor|%s|%d|%s|%s" % (rt, tid, cls, mode) + ("|unrestricted" if ev.get("unr") else "")
+    if ev.get("unr"):
+        _bump(counters, "acc_unrestricted_evals")
+        if cls in NONACC:
+            _bump(counters, "acc_unrestricted_nonaccepted_evals")
     if cls == "accepted" and mode == "same":
         ok = (len(calls_rq) == 1 and calls_rq[0][0] == rt and len(msgs) == 1 and msgs[0]["ctx"] == tid
               and msgs[0]["cmd"].get("MessageIDBeingRespondedTo") == msg_id
@@ -557,11 +587,11 @@ def acceptor_eval(ev, port, counters):
         _bump(counters, "acc_split_cmd_evals")
     sfx = "" if mode == "same" else "|split-command-id"
     if calls_rq:
-        viol.append({"key": "acceptor|%s|%s|handler-invoked%s" % (rt, cls, sfx),
+        viol.append({"key": "acceptor|%s|%s|handler-invoked%s" % (rt, cls, sfx + ("|unrestricted-storage" if ev.get("unr") else "")),
                      "detail": "%s (msg id %d) sent on context id %d (%s; accepted ids %r): handlers ran %r; peer then saw %r, end=%r" % (
                          rt, msg_id, tid, cls, sorted(accepted), calls_rq, obs["responses"], end)})
     if msgs:
-        viol.append({"key": "acceptor|%s|%s|response-sent%s" % (rt, cls, sfx),
+        viol.append({"key": "acceptor|%s|%s|response-sent%s" % (rt, cls, sfx + ("|unrestricted-storage" if ev.get("unr") else "")),
                      "detail": "%s (msg id %d) sent on context id %d (%s; accepted ids %r): P-DATA-TF came back %r; handlers %r, end=%r" % (
                          rt, msg_id, tid, cls, sorted(accepted), obs["responses"], calls_rq, end)})
     for e in obs["excs"]:
@@ -571,6 +601,9 @@ def acceptor_eval(ev, port, counters):
 
 def run_acceptor_case(case, counters):
     viol, samples, inconc, dkeys = [], [], [], []
+    from pynetdicom import _config
+    saved = _config.UNRESTRICTED_STORAGE_SERVICE
+    _config.UNRESTRICTED_STORAGE_SERVICE = bool(case.get("unrestricted"))
     ae = harness.make_ae(title="VERIF-SCP", timeouts=(5.0, 5.0, 5.0, 5.0), supported=[(a, [IMPL, EXPL]) for a in SERVICE_ABS])
     server, port = harness.start_server(ae, acceptor_handlers())
     try:
@@ -586,6 +619,7 @@ def run_acceptor_case(case, counters):
                 samples.append(obs)
     finally:
         harness.stop_ae(ae)
+        _config.UNRESTRICTED_STORAGE_SERVICE = saved
     return viol, samples[:6], inconc, dkeys
 
 
